@@ -70,6 +70,11 @@ theorem rowOf_congr {t0 t : Spec.STable} (h : t0.cols = t.cols) (cols : List Byt
   unfold Spec.rowOf
   rw [h]
 
+theorem namesOK_congr {t0 t : Spec.STable} (h : t0.cols = t.cols) (names : List String) :
+    Spec.namesOK t0 names = Spec.namesOK t names := by
+  unfold Spec.namesOK
+  rw [h]
+
 theorem mapM_congr_vals {β} (G : Spec.SRow → Option β) (hG : ∀ r r', r.vals = r'.vals → G r = G r') :
     ∀ (l0 l : List Spec.SRow), l0.map (·.vals) = l.map (·.vals) → l0.mapM G = l.mapM G
   | [], [], _ => rfl
@@ -136,7 +141,11 @@ theorem specInsert_congr {sdb0 sdb sdb' : Spec.SDB} (hv : valsOf sdb0 = valsOf s
     rw [hfind0]
     simp only [Option.bind_eq_bind, Option.bind_some] at h ⊢
     have hrow : Spec.rowOf t0 cols = Spec.rowOf t cols := funext fun vals => rowOf_congr (tv_cols htv) cols vals
-    rw [hrow]
+    rw [hrow, namesOK_congr (tv_cols htv)]
+    split at h
+    · cases h
+    rename_i hnm
+    rw [if_neg hnm]
     cases hm : rows.mapM (Spec.rowOf t cols) with
     | none => rw [hm] at h; cases h
     | some newRows =>
@@ -230,7 +239,11 @@ theorem specUpdate_congr {sdb0 sdb sdb' : Spec.SDB} (hv : valsOf sdb0 = valsOf s
     · cases h
     · rename_i hany
       rw [if_neg hany]
-      rw [selects_congr htv w, tv_cols htv]
+      rw [selects_congr htv w, tv_cols htv, namesOK_congr (tv_cols htv)]
+      split at h
+      · cases h
+      rename_i hnm
+      rw [if_neg hnm]
       cases hsel : Spec.selects t w with
       | none => rw [hsel] at h; cases h
       | some sel =>
@@ -276,13 +289,15 @@ theorem evalInsert_refused_specV (db : Engine.DB) (pt sch : Levels) (tbls : List
     (sdb : Spec.SDB) (h : AbsV db.store pt sch tbls sdb) (table : Bytes) (cols : List Bytes)
     (r : List Val) (rest : List (List Val))
     (hbad : (Spec.findTable sdb table = none ∧ table ≠ sysPages ∧ table ≠ sysSchema) ∨
-      ∃ st, Spec.findTable sdb table = some st ∧ Spec.rowOf st cols r = none) :
+      ∃ st, Spec.findTable sdb table = some st ∧
+        (Spec.rowOf st cols r = none ∨ Spec.namesOK st (cols.map Spec.nameStr) = false)) :
     Spec.specInsert sdb table cols (r :: rest) = none ∧
     ∃ e db', Engine.evalInsert db table cols (r :: rest) = .err (.store e) db' ∧
       (e = .tableNotExist ∨ RowRefusal e) ∧ db'.wal = db.wal ∧ AbsV db'.store pt sch tbls sdb := by
   obtain ⟨sdb0, habs, hv⟩ := h
   have hbad0 : (Spec.findTable sdb0 table = none ∧ table ≠ sysPages ∧ table ≠ sysSchema) ∨
-      ∃ st, Spec.findTable sdb0 table = some st ∧ Spec.rowOf st cols r = none := by
+      ∃ st, Spec.findTable sdb0 table = some st ∧
+        (Spec.rowOf st cols r = none ∨ Spec.namesOK st (cols.map Spec.nameStr) = false) := by
     rcases hbad with ⟨hn, h1, h2⟩ | ⟨st, hf, hr⟩
     · left
       refine ⟨?_, h1, h2⟩
@@ -293,13 +308,17 @@ theorem evalInsert_refused_specV (db : Engine.DB) (pt sch : Levels) (tbls : List
       | some x => rw [hf0] at this; cases this
     · right
       obtain ⟨st0, hf0, htv⟩ := findTable_congr_some hv hf
-      exact ⟨st0, hf0, by rw [rowOf_congr (tv_cols htv)]; exact hr⟩
+      refine ⟨st0, hf0, ?_⟩
+      rcases hr with hr | hr
+      · exact .inl (by rw [rowOf_congr (tv_cols htv)]; exact hr)
+      · exact .inr (by rw [namesOK_congr (tv_cols htv)]; exact hr)
   have hnone : Spec.specInsert sdb table cols (r :: rest) = none := by
-    rcases hbad with ⟨hn, _, _⟩ | ⟨st, hf, hr⟩
+    rcases hbad with ⟨hn, _, _⟩ | ⟨st, hf, hr | hr⟩
     · unfold Spec.specInsert
       rw [hn]
       rfl
     · exact specInsert_none_of_bad_row sdb table cols _ st hf ⟨r, List.mem_cons_self, hr⟩
+    · exact specInsert_none_of_bad_names sdb table cols r rest st hf hr
   obtain ⟨_, e, db', he, hre, hw, habs'⟩ := evalInsert_refused_spec db pt sch tbls sdb0 habs table cols r rest hbad0
   exact ⟨hnone, e, db', he, hre, hw, ⟨sdb0, habs', hv⟩⟩
 
@@ -327,6 +346,7 @@ theorem evalUpdate_refines_specV (db : Engine.DB) (pt sch : Levels) (tbls : List
     (sdb sdb' : Spec.SDB) (h : AbsV db.store pt sch tbls sdb) (table : Bytes)
     (sets : List (Bytes × Sql.VExpr)) (w : Option Sql.Cond)
     (hvalid : ∀ p ∈ sets, ∀ l, p.2 = .lit l → ValidVal (Engine.litToVal l))
+    (hutf : ∀ p ∈ sets, (Spec.nameStr p.1).toUTF8.toList = p.1)
     (hspec : Spec.specUpdate sdb table sets w = some sdb') :
     ∃ db' t' logs,
       Engine.evalUpdate db table sets w = .ok () db' ∧ db'.wal = db.wal ++ logs ∧
@@ -335,7 +355,7 @@ theorem evalUpdate_refines_specV (db : Engine.DB) (pt sch : Levels) (tbls : List
   obtain ⟨sdb0, habs, hv⟩ := h
   obtain ⟨sdb0', hspec0, hv'⟩ := specUpdate_congr hv table sets w hspec
   obtain ⟨db', t', logs, e, hw, habs', hlk⟩ := evalUpdate_refines_spec db pt sch tbls sdb0 sdb0' habs table sets w
-    hvalid hspec0
+    hvalid hutf hspec0
   exact ⟨db', t', logs, e, hw, ⟨sdb0', habs', hv'⟩, hlk⟩
 
 end Mkdb.Store
